@@ -96,7 +96,7 @@ def receiver(text, pos):
     return r.lstrip("&*!(")
 
 
-def audit_file(path, rel, calls=()):
+def audit_file(path, rel, calls=(), ctl=False):
     src = open(path).read()
     txt = strip_comments(src)
     # line start offsets
@@ -134,6 +134,12 @@ def audit_file(path, rel, calls=()):
             if pre.endswith("fn "):
                 continue
             events.append((m.start(1), "call", m.group(1)))
+    if ctl:
+        # opt-in pseudo sites: the branch skeleton of a function (keywords in source order); static tables only
+        for m in re.finditer(r"(?<![A-Za-z0-9_])(if|else|match|loop|while|for|return|break|continue)(?![A-Za-z0-9_])", txt):
+            events.append((m.start(1), "ctl", m.group(1)))
+        for m in re.finditer(r"\?(?=\s*[;.,)\]}])", txt):
+            events.append((m.start(), "ctl", "try"))
     for i, c in enumerate(txt):
         if c == "{":
             events.append((i, "{", None))
@@ -160,7 +166,7 @@ def audit_file(path, rel, calls=()):
             depth -= 1
             while stack and stack[-1][2] >= depth:
                 stack.pop()
-        elif kind in ("op", "point", "call"):
+        elif kind in ("op", "point", "call", "ctl"):
             if any(k == "mod" and n in ("tests", "test") for k, n, _ in stack):
                 continue
             fns = [n for k, n, _ in stack if k == "fn"]
@@ -198,6 +204,8 @@ def audit_file(path, rel, calls=()):
                 opn = "cas" if op.startswith("compare_exchange") else op
             elif kind == "call":
                 recv, opn, ords = "", "call." + data, []
+            elif kind == "ctl":
+                recv, opn, ords = "", "ctl." + data, []
             else:
                 # a marker on a plain (non-atomic) shared access: the statement that follows the marker is the access
                 # it stands for; its text is part of the table, so that moving the access away from its marker is seen
@@ -252,7 +260,7 @@ def struct_fields(path, name):
     return names
 
 
-def audit(repo="/repo", calls=()):
+def audit(repo="/repo", calls=(), ctl=False):
     out = []
     for sub in ("src", "may_queue/src"):
         for dp, dn, fn in os.walk(os.path.join(repo, sub)):
@@ -261,7 +269,7 @@ def audit(repo="/repo", calls=()):
             for f in sorted(fn):
                 if f.endswith(".rs") and f not in ("kqueue.rs", "verif.rs"):
                     p = os.path.join(dp, f)
-                    out += audit_file(p, os.path.relpath(p, repo), calls)
+                    out += audit_file(p, os.path.relpath(p, repo), calls, ctl)
     return out
 
 
